@@ -194,6 +194,55 @@ def run(tier, seed, build=True):
                                "choices": choices, "expected_stdout": common.b64(expected)})
         res.sample({"part": "B", "configs": {k: str(v) for k, v in B.items()}})
 
+        # ---- part C: the other kinds of source (compressed, archived, journal, event log) beside text with tied instants
+        import samples
+        cdir = os.path.join(work, "C")
+        os.makedirs(cdir)
+        csets = []
+        tdata = source_bytes("T", [0, 1000000, 1000000], 0)[1]
+        common.write_file(os.path.join(cdir, "z.log.gz"), gen.gz(tdata))
+        common.write_file(os.path.join(cdir, "t.tar"), gen.tar([("m.log", source_bytes("T", [0, 1000000], 1)[1])]))
+        common.write_file(os.path.join(cdir, "u.wtmp"), source_bytes("U", [0, 1000000, 1000400], 2)[1])
+        common.write_file(os.path.join(cdir, "p.log"), source_bytes("T", [1000000, 1001000], 3)[1])
+        csets.append(["z.log.gz", "t.tar", "u.wtmp", "p.log"])
+        csets.append(["p.log", "u.wtmp", "t.tar", "z.log.gz"])
+        if samples.journal(cdir, "u3", "j.journal"):
+            # text lines at exactly the journal's entry instants (microseconds), and one in between
+            jm = oracle.single_source_messages("j.journal", cdir, binary=common.S4V)[0]
+            import c13
+            us = sorted({c13.key_to_ns(k) // 1000 for k, _ in jm})
+            rel = [u - E_MS * 1000 for u in us]
+            lines = [gen.ts_iso_off(u // 1000, OFFS[i % len(OFFS)], us=u % 1000000) + b" tie-with-journal %d" % i for i, u in enumerate(us)]
+            common.write_file(os.path.join(cdir, "k.txt"), b"\n".join(lines) + b"\n")
+            csets.append(["j.journal", "k.txt"])
+            csets.append(["k.txt", "j.journal"])
+            if tier == "thorough" and samples.evtx(cdir, "pnp", "e.evtx"):
+                em = oracle.single_source_messages("e.evtx", cdir, binary=common.S4V)[0]
+                eus = sorted({c13.key_to_ns(k) // 1000 for k, _ in em})[:40]
+                elines = [gen.ts_iso_off(u // 1000, 0, us=u % 1000000) + b" tie-with-evtx %d" % i for i, u in enumerate(eus)]
+                common.write_file(os.path.join(cdir, "v.txt"), b"\n".join(elines) + b"\n")
+                csets.append(["e.evtx", "v.txt"])
+                csets.append(["v.txt", "e.evtx"])
+        nC = 0
+        for names in csets:
+            per = [oracle.single_source_messages(n, cdir, binary=common.S4V)[0] for n in names]
+            expected = oracle.expected_output(per)
+            for pol in POLICIES:
+                srcs = []
+                for n in names:
+                    srcs.append("t.tar|m.log" if n == "t.tar" else n)
+                cfg = sched.Config("C", cdir, list(oracle.DEC_ARGS) + ["-t", "+00:00"] + names, srcs, exec_timeout=120)
+                x = cfg.run([], policy=pol)
+                res.count()
+                nC += 1
+                oc = x.trace.get("outcome") if x.trace else "no-trace"
+                if oc != "completed" or x.out != expected:
+                    res.violation({"part": "C", "symptom": oc if oc != "completed" else "order-or-content-differs", "kinds": ",".join(n.rsplit(".", 1)[-1] for n in names)},
+                                  "sources %s (policy %s): merged stdout differs from the reference merge" % (names, pol),
+                                  {"engine": "E-CLI", "args": cfg.args, "note": "part C: files are rebuilt by the check (journal/evtx samples)"})
+            res.distinct(("C", tuple(names)))
+        res.coverage["part_C_executions"] = nC
+
         # ---- part D: a walked directory lists sources in sorted path order ------------------------------------
         dd = os.path.join(work, "D", "dir")
         os.makedirs(os.path.join(dd, "sub"))
